@@ -33,6 +33,21 @@ def judge (toks : List String) (out : List String) : String :=
             | some row => s!"bad final-result-differs row={String.intercalate "," (row.map encodeValue)} out={net (recs o) row} spec={groupSpec op.conf op.nk (recs op.stream) row}"
             | none => "ok"
         | _ => "bad impl-" ++ String.intercalate "_" out
+  | "sgb" :: rest =>
+    match parseSgb rest with
+    | none => "bad unparsable-op"
+    | some op =>
+      if !(recs op.stream).all (fun r => op.conf.recOk r.vals) then "ok"
+      else if !validLogB (recs op.stream) then "ok"
+      else match out with
+        | "ok" :: ms =>
+          match parseMsgs ms with
+          | none => "bad unparsable-impl-output"
+          | some o =>
+            match (candidateRows op o).find? fun row => net (recs o) row != groupSpec op.conf op.nk (recs op.stream) row with
+            | some row => s!"bad simple-group-by-differs row={String.intercalate "," (row.map encodeValue)} out={net (recs o) row} spec={groupSpec op.conf op.nk (recs op.stream) row}"
+            | none => "ok"
+        | _ => "bad impl-" ++ String.intercalate "_" out
   | _ => "ok"
 
 end Octo.Drv.C16
